@@ -212,3 +212,80 @@ fn c11_q_fill_symbol_func_or_public() {
     std::mem::forget(sf);
     std::mem::forget(module);
 }
+
+/// M: 16
+/// F: breakpad_symbols::SymbolFile::fill_symbol: parameter-size preference (STACK WIN framedata record covering the address, else FPO record covering the address, else the FUNC record's own value)
+/// I: one FUNC record, one STACK WIN framedata record and one FPO record with symbolic ranges inside/around it and symbolic parameter sizes; module base and instruction symbolic
+/// B: 1 FUNC, 1 framedata, 1 FPO record; empty name tables
+/// A: HashMap::new's random keys replaced by constants (maps stay empty)
+/// O: the reported parameter size is that of the framedata record containing the *instruction's* module-relative address, else of the FPO record containing it, else the FUNC's; the function base is FUNC address + module base
+#[kani::proof]
+#[kani::unwind(6)]
+#[kani::stub(std::hash::RandomState::new, fixed_random_state)]
+fn c11_q_fill_symbol_parameter_size_preference() {
+    use breakpad_symbols::verif::{StackInfoWin, WinStackThing};
+    let fa: u64 = kani::any();
+    let fs: u32 = kani::any();
+    kani::assume(fs > 0);
+    let fe = fa.checked_add(fs as u64 - 1);
+    kani::assume(fe.is_some() && fe.unwrap() < u64::MAX);
+    let fe = fe.unwrap();
+    let win = |addr: u64, size: u32, ps: u32| StackInfoWin {
+        address: addr,
+        size,
+        prologue_size: 0,
+        epilogue_size: 0,
+        parameter_size: ps,
+        saved_register_size: 0,
+        local_size: 0,
+        max_stack_size: 0,
+        program_string_or_base_pointer: WinStackThing::AllocatesBasePointer(false),
+    };
+    let (da, ds): (u64, u32) = (kani::any(), kani::any());
+    let (pa, ps): (u64, u32) = (kani::any(), kani::any());
+    kani::assume(ds > 0 && ps > 0);
+    let de = da.checked_add(ds as u64 - 1);
+    let pe = pa.checked_add(ps as u64 - 1);
+    kani::assume(de.is_some() && pe.is_some() && de.unwrap() < u64::MAX && pe.unwrap() < u64::MAX);
+    let (de, pe) = (de.unwrap(), pe.unwrap());
+    let sf = SymbolFile {
+        module_id: String::new(),
+        debug_file: String::new(),
+        files: std::collections::HashMap::new(),
+        publics: Vec::new(),
+        functions: RangeMap::try_from_iter(vec![(Range::new(fa, fe), func(fa, fs, 10))]).unwrap(),
+        inline_origins: std::collections::HashMap::new(),
+        cfi_stack_info: RangeMap::new(),
+        win_stack_framedata_info: RangeMap::try_from_iter(vec![(Range::new(da, de), win(da, ds, 20))]).unwrap(),
+        win_stack_fpo_info: RangeMap::try_from_iter(vec![(Range::new(pa, pe), win(pa, ps, 30))]).unwrap(),
+        url: None,
+        ambiguities_repaired: 0,
+        ambiguities_discarded: 0,
+        corruptions_discarded: 0,
+        cfi_eval_corruptions: 0,
+    };
+    let mbase: u64 = kani::any();
+    let module = minidump::MinidumpModule::new(mbase, 0x1000, "m");
+    let mut fr = Rec { ins: kani::any(), func: None, calls: 0 };
+    sf.fill_symbol(&module, &mut fr);
+    if fr.ins >= mbase {
+        let addr = fr.ins - mbase;
+        if fa <= addr && addr <= fe {
+            let want_ps = if da <= addr && addr <= de {
+                20
+            } else if pa <= addr && addr <= pe {
+                30
+            } else {
+                10
+            };
+            kani::cover!(want_ps == 30 && !(da <= fa && fa <= de), "FPO record decides");
+            assert!(fr.func == Some((fa + mbase, want_ps)));
+        } else {
+            assert!(fr.func.is_none());
+        }
+    } else {
+        assert!(fr.func.is_none());
+    }
+    std::mem::forget(sf);
+    std::mem::forget(module);
+}
